@@ -316,9 +316,16 @@ def bounded(b):
         part = mk()
         case = {"part": name, "rest_array": True}
         rests = sorted((r.start.t, r.end.t - r.start.t, r.id, r.voice) for r in part.iter_all(sc.Rest))
-        for ropts in ({}, {"include_time_signature": True, "include_key_signature": True, "include_staff": True}):
+        for ropts in ({}, {"include_time_signature": True, "include_key_signature": True, "include_staff": True}, {"include_staff": True}, {"include_grace_notes": True},
+                      {"include_pitch_spelling": True}, {"include_metrical_position": True}):
             ok, ra = b.guard("rest_array/no_exception", dict(case, options=sorted(ropts)), lambda: part.rest_array(**ropts))
             if ok:
+                # the columns are those that were asked for
+                want_cols = {"include_staff": ["staff"], "include_grace_notes": ["is_grace", "grace_type"], "include_time_signature": ["ts_beats", "ts_beat_type"], "include_key_signature": ["ks_fifths", "ks_mode"],
+                             "include_pitch_spelling": ["step", "alter", "octave"], "include_metrical_position": ["rel_onset_div", "tot_measure_div", "is_downbeat"]}
+                names = set(ra.dtype.names or ())
+                wrong = [c for k, cols in want_cols.items() for c in cols if (c in names) != bool(ropts.get(k))]
+                b.case("rest_array/optional_columns", not wrong, dict(case, options=sorted(ropts), columns=True), "columns present or missing against the options: %r (array has %r)" % (wrong, sorted(names)))
                 got = sorted((int(r["onset_div"]), int(r["duration_div"]), str(r["id"])) for r in ra)
                 b.case("rest_array/one_row_per_rest_with_timeline_values", got == [(a, d, str(i)) for (a, d, i, _) in rests], dict(case, options=sorted(ropts)), "rests %r, expected %r" % (got, rests))
                 if ok and len(ra) and "ts_beats" in ra.dtype.names:
@@ -451,6 +458,15 @@ def bounded(b):
             got = sorted((round(float(r["onset_beat"]), 4), round(float(r["duration_beat"]), 4), int(r["pitch"]), str(r["step"]), int(r["alter"]), int(r["octave"])) for r in back)
             want = sorted((o, d, p, st, al, oc) for (o, d, p, st, al, oc) in spelled)
             b.case("inverse/note_array_to_score_and_back_same_onsets_durations_pitches", got == want, case, "round trip %r, expected %r" % (got, want))
+    # pitches below the piano's lowest key (the array has no spelling columns: the new notes are spelled by the library)
+    low = [(0.0, 1.0, 5), (1.0, 1.0, 12), (2.0, 1.0, 19), (3.0, 1.0, 20), (4.0, 1.0, 0), (5.0, 1.0, 7), (6.0, 1.0, 10), (7.0, 1.0, 21)]
+    na = np.array(low, dtype=[("onset_beat", "f4"), ("duration_beat", "f4"), ("pitch", "i4")])
+    case = {"inverse": "beat", "pitches_below_A0": True}
+    ok, score = b.guard("inverse/no_exception", case, lambda: note_array_to_score(na))
+    if ok:
+        back = score.note_array() if hasattr(score, "note_array") else score[0].note_array()
+        got = sorted((round(float(r["onset_beat"]), 4), round(float(r["duration_beat"]), 4), int(r["pitch"])) for r in back)
+        b.case("inverse/note_array_to_score_and_back_same_onsets_durations_pitches", got == sorted(low), case, "round trip %r, expected %r" % (got, sorted(low)))
     # arrays with grace notes (rows of duration zero) in front of their main notes, voices numbered from 0 and from 1
     grows = [(0, 4, 72, 0), (4, 0, 76, 0), (4, 4, 74, 0), (8, 8, 76, 0), (16, 0, 79, 0), (16, 0, 81, 0), (16, 8, 77, 0), (24, 8, 76, 0),
              (0, 8, 48, 1), (8, 0, 50, 1), (8, 8, 52, 1), (16, 16, 55, 1)]
